@@ -20,8 +20,14 @@ INT_CARRIERS = ["int", "int8", "int16", "int32", "int64", "float", "float32", "f
 UINT_CARRIERS = ["uint8", "uint16", "uint32", "uint64", "bool"]
 
 
-def gen_value(rng, big_ok):
+NEAR_LIMIT = {"int8": [100, -100, 127], "int16": [20000, -30000], "int32": [70000, -50000], "uint8": [200, 255]}
+
+
+def gen_value(rng, big_ok, narrow=None):
     r = rng.random()
+    if narrow and big_ok and r < .45:
+        # values that fit the polynomial's narrow coefficient dtype but whose squares / products do not
+        return Fraction(int(gen.choice(rng, NEAR_LIMIT[narrow])))
     if r < .55:
         return Fraction(int(rng.integers(-3, 4)))
     if r < .65 and big_ok:
@@ -38,6 +44,18 @@ def gen_case(rng, i):
     maxdeg = max((sum(t[0]) for t in a["terms"]), default=0)
     big_ok = maxdeg <= 2
     mode = gen.choice(rng, ["full", "partial", "poly", "swap", "error"], p=[.45, .2, .15, .1, .1])
+    r = rng.random()
+    if a["kind"] == "int" and r < .2:
+        # narrow coefficient dtypes: the value of a call must not depend on the coefficient dtype either (arguments are
+        # raised and multiplied in the promoted type, never in the polynomial's own narrow one)
+        a["dtype"] = gen.choice(rng, ["int8", "int16", "int32", "uint8"])
+        if a["dtype"] == "uint8":
+            for t in a["terms"]:
+                t[1] = [abs(v) if isinstance(v, int) else v for v in t[1]]
+    elif a["kind"] == "float" and r < .25:
+        # tiny but non-zero coefficients (2**-60 scale): a partially evaluated polynomial stays a polynomial
+        for t in a["terms"]:
+            t[1] = [coef_json(coef_from_json(v) / 2 ** 60) for v in t[1]]
     args, kwargs = [], []
     bound = {}
     # argument shapes broadcasting among themselves
@@ -56,7 +74,7 @@ def gen_case(rng, i):
             continue
         shape = gen.sub_shape(rng, common)
         size = int(numpy.prod(shape, dtype=int))
-        vals = [gen_value(rng, big_ok and not shape) for _ in range(size)]
+        vals = [gen_value(rng, big_ok and not shape, a["dtype"] if a.get("dtype") in NEAR_LIMIT else None) for _ in range(size)]
         kind = "complex" if any(isinstance(v, tuple) for v in vals) else ("float" if any(v.denominator != 1 for v in vals) else "int")
         bound[nm] = {"names": [0], "shape": list(shape), "dtype": gen.KIND_DTYPE[kind], "kind": kind,
                      "terms": [[[0], [coef_json(v) for v in vals]]], "as": "scalar" if not shape else "ndarray"}
